@@ -73,6 +73,16 @@ def gen_cases(rng, tier, count=None):
                 H = C.gpo_N_H(c["n"], c["params"]["rhomax"])[1]
                 c["queries"] = [q for q in c["queries"] if q >= H + 1]
         out.append(c)
+    # StroquOOL once more: budgets from 200 on (two or more candidate slots), noisy rewards (repeated evaluations of a
+    # cell differ), the whole budget played; every second run asks after every round, the others at most three times
+    for i in range(120 if tier == "quick" else 1500):
+        c = gen.algo_case(rng, "StroquOOL", tier, n=int(rng.integers(200, 1001)), early_stop=False,
+                          fams=["noisy", "unit", "drift", "bern", "quant5", "intnormal", "large_off", "cl_garland"])
+        T = c["T"]
+        c["queries"] = list(range(min(T, 400))) if i % 2 == 0 else sorted(
+            int(x) for x in rng.integers(1, T, size=int(rng.integers(0, 4))))
+        c["tolerate_query_errors"] = True
+        out.append(c)
     return out
 
 
